@@ -1743,6 +1743,8 @@ def sx_range(*a):
 def sx_BytesIO(*a, **kw):
     if a and type(a[0]) is SymBytes:
         return SymStream(a[0].items)
+    if not a and not kw:
+        return SymStream([])          # an empty stream may be written with symbolic data later
     return _io.BytesIO(*a, **kw)
 
 
